@@ -134,6 +134,7 @@ def discharge(law: Law, shape, pid: str, replay_ref: str) -> Ob:
     """One obligation: the clause holds for every real value of the generic inputs, for this shape."""
     name = f"{pid}/{law.name}/shape{_shape_str(shape)}"
     t0 = time.time()
+    deg0 = _DEG_COUNT[0]
     gen = GenericGen()
     try:
         case = law.build(shape, gen)
@@ -202,6 +203,7 @@ def discharge(law: Law, shape, pid: str, replay_ref: str) -> Ob:
                 dg = _degenerate_ob(law, shape, gen, name, t0, replay_ref)
                 if dg is not None:
                     return dg
+                ob.detail = (ob.detail + " " if ob.detail else "") + f"degenerate-points-executed={_DEG_COUNT[0] - deg0}"
             if ob.verdict != REFUTED:
                 return ob
             verdict, detail, backend = REFUTED, ob.detail, ob.backend
@@ -214,7 +216,7 @@ def discharge(law: Law, shape, pid: str, replay_ref: str) -> Ob:
         if dg is not None:
             return dg
     if verdict == PROVED:
-        return Ob(name, PROVED, backend, ms, "", _shape_str(shape))
+        return Ob(name, PROVED, backend, ms, f"degenerate-points-executed={_DEG_COUNT[0] - deg0}" if law.degenerate else "", _shape_str(shape))
     if verdict is None:
         return Ob(name, UNKNOWN, backend, ms, detail or "undecided", _shape_str(shape))
     # ---- refuted: look for a concrete failing input and replay it on the real code
@@ -249,6 +251,9 @@ def eval_case_at(law: Law, shape, pt) -> tuple[Optional[bool], list]:
         v = r if r.is_Rational else sp.N(r, 30)
         vals.append(v)
     return True, vals
+
+
+_DEG_COUNT = [0]
 
 
 def _degenerate_ob(law, shape, gen, name, t0, replay_ref):
@@ -291,6 +296,7 @@ def degenerate_failure(law: Law, shape, names, assum):
             continue  # the real code refuses the degenerate input: not a value disagreement
         if not ok:
             continue
+        _DEG_COUNT[0] += 1
         for v in vals:
             try:
                 if v.is_number and not abs(complex(sp.N(v, 30))) <= 1e-12:
@@ -385,4 +391,11 @@ def run_laws(report, modname: str, laws: Sequence[Law], pid: str, jobs: Optional
         with ProcessPoolExecutor(max_workers=jobs) as ex:
             res = list(ex.map(_worker, tasks, chunksize=max(1, len(tasks) // (jobs * 8))))
     report.extend(res)
+    if any(l.degenerate for l in laws):
+        import re as _re
+        n = sum(int(m.group(1)) for o in res for m in [_re.search(r"degenerate-points-executed=(\d+)", o.detail or "")] if m)
+        fails = [{"name": o.name, "detail": o.detail[:300]} for o in res if o.backend == "exec-degenerate-point"]
+        report.add_bounded("degenerate-point executions of clauses proved on generic inputs (each group of inputs set to zero in turn): generic "
+                           "execution inherits SymPy's automatic cancellation of removable singularities, concrete zero operands do not",
+                           "one zero point per input group per obligation", n, not fails, [])
     return res
